@@ -139,7 +139,7 @@ PROPS = {
                         "never panics (quotient split, see DESIGN §6.1)"],
     },
     "C07": {
-        "v_units": ["truncate.py"],
+        "v_units": ["logic.py"],
         "r": [("composer_leaves", None)],
         "claim": "shape independence as non-interference: every verified component contract states gates(final) == gates(old) + shape(...) "
                  "where shape is a function of wire INDICES and constant parameters only (no witness value occurs in it), for all field "
@@ -189,15 +189,20 @@ PROPS = {
         "not_covered": ["interval lemma (rows satisfiable iff value < 2^width)", "honest accumulator values"],
     },
     "C10": {
+        "v_units": ["logic.py"],
         "r": [("widgets", lambda n: n.startswith("logic."))],
-        "claim": "logic widget only: ProverKey::compute_quotient_i / compute_linearization, VerifierKey::compute_linearization_commitment, "
-                 "delta and delta_xor_and equal the protocol's logic identity (quad range checks on the three accumulators, product wire "
-                 "w = a*b, AND/XOR relation) for all inputs.",
+        "claim": "(a) layout for EVERY pair count P <= 127 (loop invariant): append_logic_component::<P> emits P selected rows "
+                 "(q_logic = q_c = +1 AND / -1 XOR; accumulators shifted by one row on A,B,D; product wire on C), the unselected carrier row, "
+                 "and for P > 0 the two truncation bindings bind_truncation_split(a, left_acc, 2P), (b, right_acc, 2P); returns the out "
+                 "accumulator; append_logic_and/xor are the two instances; (b) logic widget: ProverKey::compute_quotient_i / "
+                 "compute_linearization, VerifierKey::compute_linearization_commitment, delta and delta_xor_and equal the protocol's logic "
+                 "identity for all inputs.",
         "technique": "contract-based deductive verification: ring/trace contract checker (exact polynomial normal form)",
-        "level_note": "NOT yet covered: append_logic_component layout for all pair counts, the quad-semantics lemma, the uniqueness lemma.",
+        "level_note": "NOT yet covered: honest accumulator values, the quad-semantics lemma, the uniqueness lemma. Assumed: the two "
+                      "bit-extraction cuts (BitIterator8 ... skip ... collect) return 2P booleans.",
         "design_ref": "DESIGN.md §4 C10",
-        "assumptions": A_RING, "trusted": T_RING,
-        "not_covered": ["append_logic_component layout", "returned witness == AND/XOR of truncated inputs (lemma)"],
+        "assumptions": A_RING + A_VERUS, "trusted": T_RING + T_VERUS,
+        "not_covered": ["returned witness == AND/XOR of truncated inputs (lemma)"],
     },
     "C11": {
         "v_units": ["truncate.py"],
